@@ -13,7 +13,8 @@ written) is refuted by TLC (RateBound; anti-vacuity and model-level form of the 
 Binding (mode A, tokio paused clock): every TLC behaviour is replayed
   * on the public Bucket::{new, consume}: Ok / Err(deadline) compared exactly at every step;
   * on the crate-private RateLimited reader (hook constructor over RateLimited::from_watcher) around a
-    scripted AsyncRead with watch-driven limit changes: Ready(n) / Pending compared at every poll;
+    scripted AsyncRead with watch-driven limit changes: Ready(n) / Pending and the value of the
+    limited_watcher() counter compared at every poll;
 plus a table of extreme parameters (i64::MAX, usize::MAX, period 2^32+-1 ms) where only panics count.
 
 Found on the pinned tree (known findings, proposed fix proposed_fixes/C09.diff):
@@ -34,6 +35,7 @@ and layer=reader kind=poll_result; (b) live limit change keeps the refill wait
 import json
 
 from vlib import ToolError
+from checks.relayproto_common import binding_selftest
 
 META = {
     "level": "model_checking",
@@ -121,6 +123,7 @@ def execute(ctx, layer, cases, name):
     obs = ctx.read_ndjson(outp)
     if len(obs) != len(cases):
         raise ToolError("harness returned %d observations for %d cases" % (len(obs), len(cases)))
+    selftest(ctx, layer, cases, obs)
     for c, o in zip(cases, obs):
         if layer == "bucket":
             judge_bucket(ctx, c, o)
@@ -131,6 +134,39 @@ def execute(ctx, layer, cases, name):
             if o.get("panic"):
                 ctx.report({"layer": "extreme", "kind": "panic", "input": c["cls"], "panic": "mul_overflow" if "multiply with overflow" in o["panic"] else "other"},
                            "Bucket panicked with extreme parameters %s: %s" % (c["name"], o["panic"]), {"layer": layer, "behaviour": c})
+
+
+def selftest(ctx, layer, cases, obs):
+    """Corrupt one observed step of an accepted behaviour: the judge must reject it."""
+    for c, o in zip(cases, obs):
+        st = c["steps"]
+        if layer == "bucket" and cause_class(st) == "none" and not o.get("panic") and not o["new_rejected"]:
+            errs = [i for i, s in enumerate(st) if s["op"] == "consume" and s["res"] == "err"]
+            oks = [i for i, s in enumerate(st) if s["op"] == "consume" and s["res"] == "ok"]
+            if errs and oks:
+                e, k = errs[0], oks[0]
+                binding_selftest(ctx, judge_bucket, c, o, [
+                    ("deadline later", lambda c_, o_: o_["steps"][e].__setitem__("val", o_["steps"][e]["val"] + UNIT)),
+                    ("deadline earlier", lambda c_, o_: o_["steps"][e].__setitem__("val", o_["steps"][e]["val"] - 1)),
+                    ("ok instead of err", lambda c_, o_: o_["steps"][e].__setitem__("res", "ok")),
+                    ("err instead of ok", lambda c_, o_: o_["steps"][k].__setitem__("res", "err")),
+                    ("expectation flipped", lambda c_, o_: c_["steps"][k].__setitem__("res", "err")),
+                    ("rejected", lambda c_, o_: o_.__setitem__("new_rejected", True)),
+                    ("panic", lambda c_, o_: o_.__setitem__("panic", "boom"))])
+                return
+        if layer == "reader" and not o.get("panic") and not o["new_rejected"]:
+            pend = [i for i, s in enumerate(st) if s["op"] == "poll" and s["res"] == "pending" and s["arg"] > 0]
+            ready = [i for i, s in enumerate(st) if s["op"] == "poll" and s["res"] == "ready"]
+            if pend and ready:
+                p, r = pend[0], ready[0]
+                binding_selftest(ctx, judge_reader, c, o, [
+                    ("ready instead of pending", lambda c_, o_: o_["steps"][p].__setitem__("res", "ready")),
+                    ("pending instead of ready", lambda c_, o_: o_["steps"][r].__setitem__("res", "pending")),
+                    ("bytes returned", lambda c_, o_: o_["steps"][r].__setitem__("val", o_["steps"][r]["val"] + 1)),
+                    ("limited counter", lambda c_, o_: o_["steps"][r].__setitem__("lim", o_["steps"][r]["lim"] + 1)),
+                    ("expectation flipped", lambda c_, o_: c_["steps"][p].__setitem__("res", "ready")),
+                    ("panic", lambda c_, o_: o_.__setitem__("panic", "boom"))])
+                return
 
 
 def cause_class(steps):
@@ -204,6 +240,11 @@ def judge_reader(ctx, c, o):
             continue
         if y["now_ms"] != s["now"] * 100:
             raise ToolError("virtual clock mismatch at step %d" % i)
+        if y["res"] == s["res"] and y.get("lim", s["lim"]) != s["lim"]:
+            ctx.report({"layer": "reader", "kind": "limited_count"},
+                       "reader step %d: the rate-limited counter is %s, the model says %s; history %s"
+                       % (i, y["lim"], s["lim"], [[x["op"], x["arg"], x["res"], x["val"]] for x in steps[:i + 1]]), rep)
+            return
         if y["res"] != s["res"] or (s["res"] == "ready" and y["val"] != s["val"]):
             ctx.report({"layer": "reader", "kind": "poll_result", "exp": s["res"], "got": y["res"].split(":")[0]},
                        "reader step %d poll with %d bytes ready at t=%d: got %s %s, the model says %s %s; history %s"
